@@ -33,7 +33,11 @@ def freeze(x):
         return ('L',) + tuple(freeze(i) for i in x)
     if isinstance(x, tuple):
         return tuple(freeze(i) for i in x)
-    return x
+    if x is None or isinstance(x, (int, float, str)):
+        return x
+    if isinstance(x, dict):
+        return ('D',) + tuple((freeze(k), freeze(v)) for k, v in x.items())
+    return repr(x)        # foreign objects (cluster futures) by their deterministic repr
 
 
 # ---- one-argument functions (map, map_async, key functions) ---------------
